@@ -51,6 +51,18 @@ def replay(prop, path):
     return 1 if out.violations else 0
 
 
+def _huge(out, mode, jobs, vname="prod"):
+    """single calls of 4 GiB + 4 KiB on a 257-fold aliased 16 MiB memfd mapping (thorough tier only)"""
+    exe = build_driver("drv_huge", ["drv_huge.c"] + HIST, vname)
+    env = core.san_env(vname)
+    futs = [core.pool().submit(core.run_driver, [exe, "--mode", mode, "--cipher", str(ci), "--cap", str(cap), "--dec", str(dec), "--seed", str(out.seed), "--variant", vname], env, 1800) for ci, cap, dec in jobs]
+    for f in futs:
+        rr = f.result()
+        out.absorb(rr, "huge")
+        out.evaluations += 1
+    out.distinct_extra += len(jobs)
+
+
 # --------------------------------------------------------------------- C05
 @check("C05")
 def c05(out):
@@ -69,6 +81,8 @@ def c05(out):
             # long-lived objects: 70 000 calls each with hundreds of rekeys and a few calls of 64 KiB .. 1 MiB
             mcases = (7 if out.tier == "quick" else 42) if vname == "prod" else 7
             run_sharded(out, exe, ["--prop", "C05", "--mode", "marathon", "--marathon-ops", "70000" if vname == "prod" else "20000", "--case-timeout", "600"], vname, mcases, shards=7, label="marathon")
+    if out.tier == "thorough":
+        _huge(out, "ctr", [(0, 2, 0), (1, 2, 0), (2, 2, 0), (0, 1, 0), (1, 0, 0)])
     out.assumptions += ["reference models (self-tested on the ten published vectors each run) are the specification",
                         "back ends not available on this CPU/build cannot be exercised",
                         "behaviour after a mid-stream key/tweak change without a counter set is outside this property (judged by C06)"]
@@ -106,7 +120,7 @@ def c01(out):
                 "walking-one keys over every tweakey bit, special keys (all-ones, TK1/TK2/TK3-only), then uniformly random key/block pairs; library set_key + ecb_encrypt/decrypt "
                 "compared with an independent cell/table model of the specification (both directions directly). distinct = distinct (variant,direction,key,block) hashes; all are non-trivial.")
     v = [("prod", n(out, 12 * 11000, 12 * 400000)), ("asan", n(out, 12 * 9000, 12 * 60000)), ("prod+W32", n(out, 12 * 9000, 12 * 100000)),
-         ("prod+NEUTRAL", n(out, 12 * 9000, 12 * 100000))]
+         ("prod+NEUTRAL", n(out, 12 * 9000, 12 * 100000)), ("prod+W32+NEUTRAL", n(out, 12 * 9000, 12 * 100000))]
     if out.tier == "thorough":
         v += [("clang", 12 * 100000), ("msan", 12 * 20000), ("prod+O0", 12 * 30000), ("prod+UNAL0", 12 * 30000), ("prod+W32+NEUTRAL", 12 * 30000), ("clang+W32", 12 * 30000)]
     _blk(out, "C01", "c01", v)
@@ -119,7 +133,8 @@ def c02(out):
     out.rule = ("case index -> (rounds 5..8, schedule mode, entry point of four: set_tweak+crypt / crypt_tweaked / fresh schedule / set_tweak(NULL)) x input kind: walking-one keys (128), "
                 "walking-one tweaks (64), single-nibble tweaks (256), every nibble value in every cell (256), special keys exercising the k0' rotation, then random (key,tweak,block) triples; "
                 "compared with an independent model of MANTIS-r (forward cipher for encrypt schedules, the model's own inverse for decrypt schedules). distinct = distinct input hashes.")
-    v = [("prod", n(out, 32 * 3000, 32 * 150000)), ("asan", n(out, 32 * 1200, 32 * 20000)), ("prod+W32", n(out, 32 * 1500, 32 * 40000)), ("prod+NEUTRAL", n(out, 32 * 1500, 32 * 40000))]
+    v = [("prod", n(out, 32 * 3000, 32 * 150000)), ("asan", n(out, 32 * 1200, 32 * 20000)), ("prod+W32", n(out, 32 * 1500, 32 * 40000)), ("prod+NEUTRAL", n(out, 32 * 1500, 32 * 40000)),
+         ("prod+W32+NEUTRAL", n(out, 32 * 1500, 32 * 40000))]
     if out.tier == "thorough":
         v += [("clang", 32 * 40000), ("msan", 32 * 8000), ("prod+O0", 32 * 10000), ("prod+W32+NEUTRAL", 32 * 10000)]
     _blk(out, "C02", "c02", v)
@@ -131,9 +146,9 @@ def c03(out):
     out.rule = ("case index mod 4: 0,1 = SKINNY single-block D(E(x)) and E(D(x)) under plain keys of every primary size and tweaked schedules; 2 = parallel ECB round trips for every block count "
                 "0..40 then random counts up to 300, both orders, in place and out of place, on every back end (Mantis via swap_modes, plus double-swap identity); 3 = Mantis histories of 1..40 operations "
                 "over set_key(mode)/set_tweak/set_tweak(NULL)/swap_modes/crypt/crypt_tweaked checked against a (key,tweak,mode,rounds) model, and after every swap the schedule is compared behaviourally with a fresh schedule keyed in the other mode.")
-    v = [("prod", n(out, 40000, 2000000)), ("asan", n(out, 8000, 200000)), ("prod+W32", n(out, 8000, 200000)), ("prod+NEUTRAL", n(out, 6000, 100000)), ("prod+W32+UNAL0", n(out, 6000, 100000))]
+    v = [("prod", n(out, 40000, 2000000)), ("asan", n(out, 8000, 200000)), ("prod+W32", n(out, 8000, 200000)), ("prod+NEUTRAL", n(out, 6000, 100000)), ("prod+W32+UNAL0", n(out, 6000, 100000)), ("prod+W32+NEUTRAL", n(out, 6000, 100000))]
     if out.tier == "thorough":
-        v += [("clang", 300000), ("prod+UNAL0", 100000), ("prod+W32+NEUTRAL", 100000), ("msan", 40000)]
+        v += [("clang", 300000), ("prod+UNAL0", 100000), ("clang+W32+NEUTRAL", 100000), ("msan", 40000)]
     _blk(out, "C03", "c03", v)
     out.assumptions += ["round-trip identities are metamorphic; absolute correctness is tied to the models by C01/C02/C07"]
 
@@ -166,9 +181,12 @@ def c07(out):
         exe = build_driver("drv_par", ["drv_par.c"] + HIST, vname)
         run_sharded(out, exe, ["--prop", "C07", "--mode", "model", "--structured", str(3 * 28 * 2 * 2)], vname, cases)
         if vname in ("prod", "clang"):
-            # single calls of 4096 .. 131073 blocks (64 KiB .. 2 MiB): every cipher x back end x direction x in-place
-            run_sharded(out, exe, ["--prop", "C07", "--mode", "big", "--case-timeout", "600"], vname, 72 if out.tier == "quick" else 288, shards=12, label="big")
-    out.assumptions += ["single-block functions are tied to the specification by C01/C02"]
+            # single calls of 4096 .. 1048577 blocks (32 KiB .. 16 MiB): every cipher x back end x direction x in-place
+            run_sharded(out, exe, ["--prop", "C07", "--mode", "big", "--case-timeout", "600"], vname, 36 * 12 if vname == "prod" else 36 * 4, shards=12, label="big")
+    if out.tier == "thorough":
+        _huge(out, "par", [(0, 2, 0), (0, 2, 1), (1, 2, 0), (1, 2, 1), (2, 2, 0), (2, 2, 1), (0, 1, 1), (1, 0, 1)])
+    out.assumptions += ["single-block functions are tied to the specification by C01/C02",
+                        "calls above 4 GiB are exercised in the thorough tier only (about 30-50 s of CPU each)"]
 
 
 # --------------------------------------------------------------------- C10
